@@ -106,6 +106,19 @@ def scenarios(P):
             'conf': {},
             'probes': [('r', []), ('r', ['m'])],
         },
+        's9-dir-rule-beside-missing-default': {
+            # main-file edit of an unrelated rule; the probed rule lives in
+            # policy.d and a registered default is in no file at all.  In the
+            # reduced (quick) family the decider may also be stopped inside
+            # its OWN load_rules frame here ('d_frames')
+            'old': {'policy.yaml': {'x': 'role:x1'},
+                    'd1/o.yaml': {'dr': '@'}},
+            'new': {'policy.yaml': {'x': 'role:x2'}},
+            'defaults': lambda: [P.RuleDefault('reg', 'role:rr')],
+            'conf': {}, 'd_frames': ('enforce', 'load_rules'),
+            'quick_first': ('R',),
+            'probes': [('dr', []), ('reg', ['rr'])],
+        },
         's5-alias-halves-swap': {
             'old': {'policy.yaml': {'a': 'rule:h1 and rule:h2',
                                     'h1': 'role:p', 'h2': 'role:q'}},
@@ -123,7 +136,8 @@ TIERS = {
                         's3-defaults-permissive-default',
                         's4-deprecated-defaults', 's6-two-dirs-no-edit',
                         's7-untouched-rule-of-edited-file',
-                        's8-override-of-default-removed'],
+                        's8-override-of-default-removed',
+                        's9-dir-rule-beside-missing-default'],
                   bound=2, reduced=True, opcode=False,
                   probes={'s1-main-edit-dir-override': [2, 1],
                           's1b-main-edit-dir-touched': [1],
@@ -132,7 +146,8 @@ TIERS = {
                           's4-deprecated-defaults': [2],
                           's6-two-dirs-no-edit': [1],
                           's7-untouched-rule-of-edited-file': [2],
-                          's8-override-of-default-removed': [1]}),
+                          's8-override-of-default-removed': [1],
+                          's9-dir-rule-beside-missing-default': [2]}),
     'thorough': dict(scen=None, bound=2, reduced=False, opcode=True,
                      probes=None),
 }
@@ -215,7 +230,10 @@ def plan(tier, seed):
         bounds = t['probes'][sn] if t['probes'] is not None \
             else [t['bound']] * len(sc['probes'])
         for pi, pb in enumerate(bounds):
-            for first in ('R', 'D'):
+            firsts = ('R', 'D')
+            if tier == 'quick':
+                firsts = sc.get('quick_first', firsts)
+            for first in firsts:
                 of = 4 if pb == 1 else 32
                 if tier == 'thorough':
                     of = 128
@@ -239,6 +257,7 @@ def run(job, seed):
     t = TIERS[job['tier']]
     H = Harness(P, job['space'])
     probe = H.sc['probes'][job['probe']]
+    d_frames = H.sc.get('d_frames', ('enforce',))
     # R uses the same probe as D: both decisions are judged
     old, new = H.settled(probe)
     live = []
@@ -293,7 +312,7 @@ def run(job, seed):
     def restrict(n, fn, depth):
         # reduced bound-2 family: the deciding thread's preemption lies in
         # its own enforce() frame; the reloading thread's anywhere
-        return n == 'R' or fn == 'enforce'
+        return n == 'R' or fn in d_frames
     bnd = job['bound']
     stats = {'executions': 0}
     try:
@@ -316,7 +335,7 @@ def run(job, seed):
             if ci % job['of'] != job['shard']:
                 continue
             b = bnd
-            if t['reduced'] and n == 'D' and fn != 'enforce':
+            if t['reduced'] and n == 'D' and fn not in d_frames:
                 b = 1
             sched.explore(make, job['first'], b, check, ((n, k),),
                           {(n, k): (fn, ln)},
